@@ -5,12 +5,18 @@ import IoraModel.Lemmas.LifecycleInv
 -/
 namespace Iora.Lifecycle
 
+theorem connectNow_pres {P : G → Prop} [Closed0 P] (k : Option Key) (o : Lid) (c : Bool) (g : G) (h : P g) : P (connectNow k o c g) := by
+  unfold connectNow
+  split
+  · exact Closed0.stale _ h
+  · exact Closed0.announceConnect _ _ _ (Closed0.insertCur _ _ _ _ h)
+
 /-- peel primitive operations off the goal `P (prim .. (prim .. g))`; induction hypotheses `P g' → P (f g')` are used too -/
 macro "prim" : tactic => `(tactic| (try dsimp only) <;> repeat (first
   | assumption
   | refine (by assumption : _ → _) ?_
   | apply Closed0.closeNow | apply Closed0.failConnect | apply Closed0.insertCur | apply Closed0.acceptFresh | apply Closed0.burnId
-  | apply Closed0.announceConnect | apply Closed0.dataCb | apply Closed0.setTls | apply Closed0.setWq | apply Closed0.viaIndex))
+  | apply Closed0.announceConnect | apply Closed0.dataCb | apply Closed0.setWq | apply Closed0.viaIndex | apply connectNow_pres))
 
 variable {P : G → Prop} [Closed0 P]
 
@@ -51,7 +57,7 @@ theorem doSend_pres (sid : Sid) (as : List A) (g : G) (h : P g) : P (doSend sid 
 
 theorem handshakeStep_pres (sid : Sid) (as : List A) (g : G) (h : P g) : P (handshakeStep sid as g).2.1 := by
   fun_cases handshakeStep sid as g <;> prim
-  exact readAvail_pres _ _ _ _ (Closed0.announceConnect _ true _ (Closed0.setTls sid .opened _ h))
+  exact readAvail_pres _ _ _ _ (Closed0.announceConnect _ true _ h)
 
 theorem driveHandshake_pres (sid : Sid) (as : List A) (g : G) (h : P g) : P (driveHandshake sid as g).2.1 := by
   fun_cases driveHandshake sid as g <;> prim
@@ -88,11 +94,11 @@ theorem resolveStep_pres (named : Bool) (as : List A) (g : G) (h : P g) : P (res
 theorem tlsSetup_pres (u named : Bool) (as : List A) (g : G) (h : P g) : P (tlsSetup u named as g).2.1 := by
   fun_cases tlsSetup u named as g <;> prim
 
-theorem doConnect_pres (tls named : Bool) (as : List A) (g : G) (h : P g) : P (doConnect tls named as g).1 := by
+theorem doConnect_pres (tls : TlsReq) (named : Bool) (as : List A) (g : G) (h : P g) : P (doConnect tls named as g).1 := by
   have h1 := resolveStep_pres (P := P) named as g h
   fun_cases doConnect tls named as g <;> prim
   all_goals
-    have h2 := tlsSetup_pres (P := P) (tls && g.cfg.cliCtx) named
+    have h2 := tlsSetup_pres (P := P) (decide (tls = .client) && g.cfg.cliCtx) named
       (connLoop (resolveStep named as g).2.1 (resolveStep named as g).2.2.2).2 _ h1
     first
     | exact h2
@@ -123,26 +129,48 @@ end Tcp
 
 namespace Udp
 
+/-- `prim` for the UDP primitive set -/
+macro "primU" : tactic => `(tactic| (try dsimp only) <;> repeat (first
+  | assumption
+  | refine (by assumption : _ → _) ?_
+  | apply ClosedU0.closeNow | apply ClosedU0.failConnect | apply ClosedU0.connectNow | apply ClosedU0.acceptFresh
+  | apply ClosedU0.dataCb | apply ClosedU0.setWq | apply ClosedU0.viaIndex))
+
+variable {P : G → Prop} [ClosedU0 P]
+
+theorem closeCmdU_pres (sid : Sid) (o : Origin) (g : G) (h : P g) : P (closeCmd sid o g) := by
+  unfold closeCmd
+  split
+  · exact h
+  · split <;> (try split) <;> primU
+
+theorem runGcU_pres (picks : List Sid) (g : G) (h : P g) : P (runGc picks g) := by
+  induction picks generalizing g with
+  | nil => exact h
+  | cons sid r ih => exact ih _ (ClosedU0.closeNow _ _ _ h)
+
+theorem bumpBpU_pres (g : G) (h : P g) : P (bumpBp g) := ClosedU0.bp _ _ h
+
 theorem readFromListener_pres (lid : Lid) (as : List A) (g : G) (h : P g) : P (readFromListener lid as g).1 := by
-  fun_induction readFromListener lid as g <;> prim
+  fun_induction readFromListener lid as g <;> primU
 
 theorem flushListener_pres (lid : Lid) (as : List A) (g : G) (h : P g) : P (flushListener lid as g).1 := by
-  fun_induction flushListener lid as g <;> prim
-  all_goals exact Closed0.listeners _ _ h
+  fun_induction flushListener lid as g <;> primU
+  all_goals exact ClosedU0.listeners _ _ h
 
 theorem writeClient_pres (sid : Sid) (as : List A) (g : G) (h : P g) : P (writeClient sid as g).1 := by
-  fun_induction writeClient sid as g <;> prim
-  all_goals exact Closed0.stale _ h
+  fun_induction writeClient sid as g <;> primU
+  all_goals exact ClosedU0.stale _ h
 
 theorem clientRead_pres (sid : Sid) (as : List A) (g : G) (h : P g) : P (clientRead sid as g).2.1 := by
-  fun_induction clientRead sid as g <;> prim
+  fun_induction clientRead sid as g <;> primU
 
 theorem onClient_pres (sid : Sid) (i o : Bool) (as : List A) (g : G) (h : P g) : P (onClient sid i o as g).1 := by
   have hr : P (if i = true then clientRead sid as g else (true, g, as)).2.1 := by
     split
     · exact clientRead_pres _ _ _ h
     · exact h
-  fun_cases onClient sid i o as g <;> prim
+  fun_cases onClient sid i o as g <;> primU
   all_goals first | exact hr | exact writeClient_pres _ _ _ hr
 
 theorem queueClient_pres (sid : Sid) (wq : Nat) (g : G) (h : P g) : P (queueClient sid wq g) := by
@@ -150,46 +178,46 @@ theorem queueClient_pres (sid : Sid) (wq : Nat) (g : G) (h : P g) : P (queueClie
   dsimp only
   split
   · split
-    · exact Closed0.closeNow _ _ _ (Closed0.setWq _ _ _ (bumpBp_pres _ h))
-    · exact Closed0.setWq _ _ _ (bumpBp_pres _ h)
-  · exact Closed0.setWq _ _ _ h
+    · exact ClosedU0.closeNow _ _ _ (ClosedU0.setWq _ _ _ (bumpBpU_pres _ h))
+    · exact ClosedU0.setWq _ _ _ (bumpBpU_pres _ h)
+  · exact ClosedU0.setWq _ _ _ h
 
 theorem queueListener_pres (sid : Sid) (o : Lid) (n : Nat) (g : G) (h : P g) : P (queueListener sid o n g) := by
   unfold queueListener
   dsimp only
   split
   · split
-    · exact Closed0.closeNow _ _ _ (Closed0.listeners _ _ (bumpBp_pres _ h))
-    · exact Closed0.listeners _ _ (bumpBp_pres _ h)
-  · exact Closed0.listeners _ _ h
+    · exact ClosedU0.closeNow _ _ _ (ClosedU0.listeners _ _ (bumpBpU_pres _ h))
+    · exact ClosedU0.listeners _ _ (bumpBpU_pres _ h)
+  · exact ClosedU0.listeners _ _ h
 
 theorem sendDo_pres (sid : Sid) (as : List A) (g : G) (h : P g) : P (sendDo sid as g).1 := by
-  fun_cases sendDo sid as g <;> prim
+  fun_cases sendDo sid as g <;> primU
   all_goals first | exact queueClient_pres _ _ _ h | exact queueListener_pres _ _ _ _ h
 
 theorem connectDo_pres (as : List A) (g : G) (h : P g) : P (connectDo as g).1 := by
-  fun_cases connectDo as g <;> prim
-  all_goals exact Closed0.stale _ h
+  fun_cases connectDo as g <;> primU
+  all_goals exact ClosedU0.stale _ h
 
 theorem viaDo_pres (lid : Lid) (k : Key) (as : List A) (g : G) (h : P g) : P (viaDo lid k as g).1 := by
-  fun_cases viaDo lid k as g <;> prim
-  all_goals exact Closed0.stale _ h
+  fun_cases viaDo lid k as g <;> primU
+  all_goals exact ClosedU0.stale _ h
 
-theorem dispatch_pres {P : G → Prop} [Closed P] (as : List A) (g : G) (h : P g) (hc : g.cur = none) : P (dispatch as g).1 := by
-  have hp := Closed.pop g h hc
-  fun_cases dispatch as g <;> prim
+theorem dispatch_pres {P : G → Prop} [ClosedU P] (as : List A) (g : G) (h : P g) (hc : g.cur = none) : P (dispatch as g).1 := by
+  have hp := ClosedU.pop g h hc
+  fun_cases dispatch as g <;> primU
   all_goals
     rename_i heq
     rw [heq] at hp
     dsimp only at hp
     first
     | exact hp
-    | exact Closed0.running _ _ hp
-    | (split <;> first | exact hp | exact Closed0.listeners _ _ hp)
+    | exact ClosedU0.running _ _ hp
+    | (split <;> first | exact hp | exact ClosedU0.listeners _ _ hp)
     | exact connectDo_pres _ _ hp
     | exact viaDo_pres _ _ _ _ hp
     | exact sendDo_pres _ _ _ hp
-    | exact closeCmd_pres _ _ _ hp
+    | exact closeCmdU_pres _ _ _ hp
 
 end Udp
 end Iora.Lifecycle
